@@ -12,6 +12,7 @@
 # See the License for the specific language governing permissions and
 # limitations under the License.
 
+from .node import ConfigNode
 from .composed import ComposedNode
 from ..namespace import namespace
 from ..utils import Bunch
@@ -119,6 +120,12 @@ class ConfigDict(ComposedNode, dict):
 
     @namespace('ayns')
     def on_evaluate_impl(self, path, ctx):
+        if not self.ayns.safe:
+            # keys are not children of the mapping and do not inherit its flags: keys of an unsafe mapping are unsafe as well
+            for key in self.keys():
+                if isinstance(key, ConfigNode) and key._implicit_safe is not False:
+                    key._implicit_safe = False
+
         return Bunch((ctx.evaluate_node(key), ctx.evaluate_node(value, path+[key])) for key, value in self.ayns.named_children())
 
     def __repr__(self, simple=False):
